@@ -103,6 +103,7 @@ R1_StreamPeer == <<"pA">>
 R1_Acts       == {"OpenStream", "RemoveStream", "OnStreamClose", "SubCheck", "Sub1", "Sub2", "Unsub1"}
 \* exhaustive generation around the membership check of a subscribe: removal / eviction / re-admission in between
 Rv_Acts       == {"OpenStream", "SubCheck", "Sub1", "Sub2", "RemoveMember", "AddMember", "EvictMember", "Revalidate"}
+Rvq_Acts      == {"OpenStream", "SubCheck", "Sub1", "Sub2", "RemoveMember", "EvictMember"}
 Rv_SubFrames  == {<<pA>>}
 G_DrawStreams == <<1, 1, 2, 2, 3, 3, 4>>
 G_DrawSpaces  == <<"X", "X", "X", "X", "Y", "Y", "Z", "bad/sp">>
